@@ -1,5 +1,5 @@
 // ---- data model of the tool, extracted from src/models.rs (D2: attributes dropped) ----
-//@ EXTRACT-TYPE crate=serde-rename-rule file=src/lib.rs enum=RenameRule derive=Clone,Copy
+//@ EXTRACT-TYPE crate=serde-rename-rule file=src/lib.rs enum=RenameRule derive=Clone,Copy,PartialEq,Eq
 //@ EXTRACT-TYPE file=src/models.rs enum=TypeStructure clone=1
 //@ EXTRACT-TYPE file=src/models.rs struct=LengthConstraint clone=1
 //@ EXTRACT-TYPE file=src/models.rs struct=RangeConstraint clone=1
